@@ -81,27 +81,41 @@ end NV.C17
 
 namespace NV.C17
 
-/-! ### 5. open finding: only the direct lists are checked -/
+/-! ### 5. load_binary before the fifth and sixth fix: only the binary's own lists; config_id sampled at start-up only -/
 
-/-- the full-strength reading of "a program it inherits": also programs inherited through a parent.  `parents` gives the
-    inherit list of every program (what the binaries or the sources say) -/
-def NeverStaleTransitive : Prop :=
-  ∀ (w : World) (parents : String → List String) (a b c : String) (mt t : Nat),
-    loadBinary w a = .use → w.mtime (binPath w a) = some mt → b ∈ parents a → c ∈ parents b →
-    w.mtime c = some t → t ≤ mt
+def oldCheckInherits (w : World) (mtime : Nat) : List String → Decision
+  | [] => .use
+  | inh :: rest =>
+    if checkTimes w mtime inh ≤ 0 ∨ checkTimes w mtime (binPath w inh) = 0 then .stale "inherited"
+    else if !(w.loaded.contains (objName w inh)) then .needs inh
+    else oldCheckInherits w mtime rest
 
-/-- a inherits b inherits c; b has no saved binary; c is newer than a's binary: the binary of a is used.
-    (`never_stale` itself is about the files the binary names; this is the statement it does not give.) -/
-theorem indirect_inherit_not_checked : ¬ NeverStaleTransitive := by
-  intro h
+def oldLoadBinary (w : World) (name : String) : Decision :=
+  match w.mtime (binPath w name), w.bins.lookup (binPath w name) with
+  | some mtime, some b =>
+    if checkTimes w mtime name ≤ 0 then .stale "source"
+    else if b.magic ≠ magicId then .stale "magic"
+    else if b.driverId ≠ driverId then .stale "driver"
+    else if b.configId ≠ w.configId then .stale "config"
+    else if b.includes.any (fun i => checkTimes w mtime i ≤ 0) then .stale "include"
+    else if b.name.length > 0 ∧ b.name ≠ name then .stale "name"
+    else oldCheckInherits w mtime b.inherits
+  | _, _ => .stale "nobinary"
+
+def witnessWorld : World :=
   let bo : String → String := fun n => if n = "a.c" then "B/a" else if n = "b.c" then "B/b" else "B/c"
   let oo : String → String := fun n => if n = "b.c" then "b" else "?"
-  let w : World := { files := [("B/a", 200), ("a.c", 100), ("b.c", 150), ("c.c", 300)],
-                     bins := [("B/a", { magic := magicId, driverId := driverId, configId := 0,
-                                        includes := [], name := "a.c", inherits := ["b.c"] })],
-                     loaded := ["b"], configId := 0, binOf := bo, objOf := oo }
-  have := h w (fun n => if n = "a.c" then ["b.c"] else if n = "b.c" then ["c.c"] else []) "a.c" "b.c" "c.c" 200 300
-    (by decide) (by decide) (by decide) (by decide) (by decide)
-  omega
+  { files := [("B/a", 200), ("a.c", 100), ("b.c", 150), ("c.c", 300), ("h.h", 300), ("sim.c", 300)],
+    bins := [("B/a", { magic := magicId, driverId := driverId, configId := 0,
+                       includes := [], name := "a.c", inherits := ["b.c"] })],
+    progs := [("b.c", { files := ["b.c", "h.h"], inherits := ["c.c"] }), ("c.c", { files := ["c.c"], inherits := [] })],
+    loaded := ["b"], configId := 0, simulPath := "sim.c", binOf := bo, objOf := oo }
+
+/-- a inherits b inherits c; b has no saved binary; c, a header of b and the simul_efun file are all newer than a's
+    binary: the old decision used the binary, the repaired one does not -/
+theorem old_indirect_inherit_not_checked :
+    oldLoadBinary witnessWorld "a.c" = .use ∧ loadBinary witnessWorld "a.c" = .stale "simul" ∧
+      loadBinary { witnessWorld with simulPath := "" } "a.c" = .stale "behind-inherited" := by
+  decide
 
 end NV.C17
